@@ -647,3 +647,145 @@ def r02_7(prog, out):
             out.holds(key, bi.loc(sites[0]), "every normal path parses the ack ids")
     if n < 2:
         raise CheckBroken("expected the unary and the streaming user of the ack-id parser, found %d" % n)
+
+
+def _r02_8(prog, out):
+    """R02.6 follows every id of a request from the API to the tracker.  Inside the tracker the same question remains: the loop
+    over the requested ids has to put each of them to the ack-id map -- the only thing that may decide `not outstanding`.  A
+    shortcut in front of the lookup (a low-water mark of `already expired` ids, a bloom filter, a generation compare) decides
+    on something else: a delivery that is still outstanding is silently neither acknowledged nor modified, and the caller is
+    told OK.  Instances: every by-id operation of the tracker that loops over client-supplied ids."""
+    from mapstate import LOOKUPS
+    A = prog.anchors
+    tracker = A.ty("OutstandingMessageTracker")
+    messages, expirations, notify = tracker_cells(prog)
+    n = 0
+    for b in prog.facts.lib_bodies():
+        if b.impl_self != tracker or b.kind != "AssocFn":
+            continue
+        if any((b.local_ty(i) or "") == A.ty("PulledMessage") for i in range(1, b.arg_count + 1)):
+            continue
+        takes_ids = any(A.ty("AckId") in (b.local_ty(i) or "") or A.ty("DeadlineModification") in (b.local_ty(i) or "") or "impl " in (b.local_ty(i) or "") or
+                        (b.local_ty(i) or "") in ("I", "T") for i in range(1, b.arg_count + 1))
+        if not takes_ids:
+            continue
+        bi = prog.info(b.id)
+        loops = bi.cfg.loops()
+        looks = []
+        for e in prog.effects(b.id):
+            if not e.touches(messages) or e.kind not in (L.REMOVE_KINDS | {"handle", "read"}):
+                continue
+            last = e.lib.split("::")[-1]
+            if "HashMap" not in e.lib or not (last in LOOKUPS or last in ("remove", "remove_entry")):
+                continue
+            looks.append(e.bb)
+        if not looks:
+            continue
+        for h, blocks in loops.items():
+            inl = [x for x in looks if x in blocks]
+            nexts = [bb for bb, t in bi.calls(lambda c: c.path == "std::iter::Iterator::next") if bb in blocks and h in bi.cfg.in_loop(bb)]
+            if not inl or not nexts:
+                continue
+            # innermost loop only
+            if any(set(b2) < set(blocks) and any(x in b2 for x in inl) for h2, b2 in loops.items() if h2 != h):
+                continue
+            n += 1
+            key = "id-reaches-map:%s" % prog.short(b.id)
+            start = some_arm(bi, nexts[0])
+            if start is None:
+                out.undecided(key, bi.loc(nexts[0]), "the loop over the requested ids is not a plain iterator loop")
+                continue
+            esc = bi.cfg.escapes(start, set(inl), iteration_exits(bi, inl[0]), after=False)
+            if esc is None:
+                out.holds(key, bi.loc(inl[0]), "every requested id is put to the ack-id map; only the map decides that it is not outstanding")
+            else:
+                site = esc[-1]
+                for x in esc:
+                    if bi.body.blocks[x].term.k == "switch":
+                        site = x
+                        break
+                out.violation(key, bi.loc(site), "an id of the request can be passed over without being looked up in the ack-id map (a test in front of the lookup decides): "
+                              "a delivery that is still outstanding is neither acknowledged nor modified although the call reports success",
+                              ["bb%d (%s)" % (x, bi.loc(x)) for x in esc][:8])
+    if n == 0:
+        out.undecided("id-reaches-map", "", "no tracker operation loops over client-supplied ids with a lookup in the loop (iterator pipelines are judged by R02.4)")
+
+
+@rule("C02", "R02.8", "inside the tracker every requested ack id is put to the ack-id map: nothing in front of the lookup decides to skip it", floor=1)
+def r02_8_c02(prog, out):
+    _r02_8(prog, out)
+
+
+@rule("C05", "R02.8", "inside the tracker every requested ack id is put to the ack-id map: nothing in front of the lookup decides to skip it", floor=1)
+def r02_8_c05(prog, out):
+    _r02_8(prog, out)
+
+
+def _r02_9(prog, out):
+    """The ack id travels as text: `Display` writes it into every delivery, `AckId::parse` reads it back from Acknowledge /
+    ModifyAckDeadline / StreamingPull.  `acknowledging the ID you were given retires that delivery and no other` needs the two
+    to be inverse: one radix on both sides, and a parser that tries exactly that reading -- a parser that tries decimal first
+    and hexadecimal second reads the hex token "10" (delivery 16) as delivery 10."""
+    A = prog.anchors
+    ack = A.ty("AckId")
+    disp = [b.id for b in prog.facts.lib_bodies() if b.impl_self == ack and b.impl_trait == "std::fmt::Display" and b.id.endswith("::fmt")]
+    parsers = [b.id for b in prog.facts.lib_bodies() if b.impl_self == ack and b.kind == "AssocFn" and not b.impl_trait and b.arg_count == 1
+               and (b.local_ty(1) or "") == "&str" and ack in (b.local_ty(0) or "")]
+    if not disp or not parsers:
+        raise CheckBroken("AckId's Display impl or its parser fn(&str) -> .. AckId .. not found")
+    W = set()
+    NAMES = {"new_display": 10, "new_lower_hex": 16, "new_upper_hex": 16, "new_octal": 8, "new_binary": 2, "new_lower_exp": "exp", "new_upper_exp": "exp", "new_debug": 10}
+    for bid in prog.cone(disp[0], follow=("call", "closure")):
+        bi = prog.info(bid)
+        if bi is None:
+            continue
+        for bb, t in bi.calls():
+            n = t.callee.path.split("::")[-1]
+            if "fmt::rt::Argument" in t.callee.path and n in NAMES:
+                W.add(NAMES[n])
+            elif t.callee.path in ("std::fmt::Display::fmt", "std::fmt::LowerHex::fmt", "std::fmt::UpperHex::fmt", "std::fmt::Octal::fmt", "std::fmt::Binary::fmt"):
+                W.add({"Display": 10, "LowerHex": 16, "UpperHex": 16, "Octal": 8, "Binary": 2}[t.callee.path.split("::")[-2]])
+    Rd = []
+    for bid in prog.cone(parsers[0], follow=("call", "closure")):
+        bi = prog.info(bid)
+        if bi is None:
+            continue
+        for bb, t in bi.calls():
+            p = t.callee.path
+            if p == "core::str::<impl str>::parse" and any(a in ("u64", "u32", "u128", "usize", "i64") for a in (t.callee.args or [])):
+                Rd.append((10, bi.loc(bb)))
+            elif p.endswith("::from_str_radix"):
+                r = t.args[1].const_int() if len(t.args) > 1 else None
+                if r is None and len(t.args) > 1:
+                    sl = Slicer(prog).of(bid, t.args[1])
+                    ints = [c for c in sl.consts if isinstance(c, int) or (isinstance(c, str) and c.isdigit())]
+                    r = int(ints[0]) if len(ints) == 1 else None
+                Rd.append((r, bi.loc(bb)))
+    key = "ack-id-text"
+    radices = {r for r, _ in Rd}
+    if len(W) != 1 or not Rd:
+        out.undecided(key, prog.loc(disp[0]), "rendering %s / parsing %s of the ack id not recognised" % (sorted(map(str, W)), sorted(map(str, radices))))
+    elif len(Rd) > 1 and len(radices) > 1:
+        out.violation(key, Rd[1][1], "AckId::parse tries several readings of the text (radices %s): a token that is a valid number in more than one of them is taken "
+                      "for another delivery than the one it was handed out for -- acknowledging it retires the wrong message" % sorted(map(str, radices)),
+                      ["written in radix %s by %s" % (sorted(W)[0], prog.loc(disp[0]))] + ["read in radix %s at %s" % (r, l) for r, l in Rd])
+    elif radices != W:
+        out.violation(key, Rd[0][1], "the ack id is written in radix %s and read in radix %s: the id a client hands back denotes another delivery (or none)" % (
+            sorted(W)[0], sorted(map(str, radices))[0]))
+    else:
+        out.holds(key, prog.loc(parsers[0]), "written and read in radix %s, one reading" % sorted(W)[0])
+
+
+@rule("C02", "R02.9", "the ack id is written and parsed in one radix, and the parser tries exactly that reading", floor=1)
+def r02_9_c02(prog, out):
+    _r02_9(prog, out)
+
+
+@rule("C03", "R02.9", "the ack id is written and parsed in one radix, and the parser tries exactly that reading", floor=1)
+def r02_9_c03(prog, out):
+    _r02_9(prog, out)
+
+
+@rule("C05", "R02.9", "the ack id is written and parsed in one radix, and the parser tries exactly that reading", floor=1)
+def r02_9_c05(prog, out):
+    _r02_9(prog, out)
